@@ -1,4 +1,5 @@
 import Hdc.Lemmas.GenNum
+import Hdc.Gen.NumTinterpolate
 import Hdc.Lemmas.GenNumTI
 import Std.Tactic.Do
 /-
